@@ -27,7 +27,9 @@ def node_frame():
     obs = []
     n = 0
     for m, cname, cnode in node_classes():
-        for fn in [s for s in cnode.body if isinstance(s, (ast.FunctionDef, ast.AsyncFunctionDef)) and s.name in RENDER_METHODS]:
+        # every method that can run during a render: all but the constructors (helpers such as
+        # CallNode.macro_args or CaptureNode._assign are reached from the render methods)
+        for fn in [s for s in cnode.body if isinstance(s, (ast.FunctionDef, ast.AsyncFunctionDef)) and s.name not in ("__init__", "__post_init__", "__init_subclass__") and s.args.args and s.args.args[0].arg == "self"]:
             n += 1
             stores = []
             for x in ast.walk(fn):
@@ -180,7 +182,15 @@ def module_state():
     return obs
 
 
-not_covered("C17", "the statement's exemptions (current time via now/today, templates reloaded from changed sources)", "CachingLoaderMixin._check_cache sets cached_template.globals on a shared template (C23)",
+# a cached template is shared between requests: what it renders must not depend on the request
+# that happened to load it (the globals of an EARLIER request); same contract as C23's
+from contracts.C23 import _mk_check_cache  # noqa: E402
+
+for _sfx in ("", "_async"):
+    _mk_check_cache("hit", _sfx, prop="C17")
+
+
+not_covered("C17", "the statement's exemptions (current time via now/today, templates reloaded from changed sources)",
             "the write-set obligations are syntactic over method bodies (aliases through local variables of self attributes are followed one level); the bounded history check renders sequences and compares deep copies of the data")
 
 bounded("C17", "bounded/C17.py")
